@@ -2387,6 +2387,16 @@ void uncrustify_file(const file_mem &fm, FILE *pfout, const char *parsed_file,
 
    dump_step(dump_file, "Before second while loop");
 
+   // Every useful round of the code_width loop breaks at least one line, so
+   // the number of chunks bounds the rounds of a run that converges.
+   size_t code_width_rounds     = 0;
+   size_t code_width_max_rounds = 16;
+
+   for (Chunk *pc = Chunk::GetHead(); pc->IsNotNullChunk(); pc = pc->GetNext())
+   {
+      code_width_max_rounds += 2;
+   }
+
    do
    {
       align_all();
@@ -2398,6 +2408,14 @@ void uncrustify_file(const file_mem &fm, FILE *pfout, const char *parsed_file,
          log_rule_B("code_width");
          LOG_FMT(LNEWLINE, "%s(%d): Code_width loop start: %d\n",
                  __func__, __LINE__, cpd.changes);
+
+         if (++code_width_rounds > code_width_max_rounds)
+         {
+            LOG_FMT(LERR, "%s(%d): %s: the line splitting for code_width = %u does not converge (%zu rounds)\n",
+                    __func__, __LINE__, cpd.filename.c_str(), options::code_width(), code_width_rounds);
+            log_flush(true);
+            exit(EX_SOFTWARE);
+         }
 
          if (options::debug_max_number_of_loops() > 0)
          {
